@@ -125,7 +125,9 @@ Theorem C02_group_grammar_spans :
           /\ (r_nullable re = false ->
               scan (matches (r_prog re) input) input (length input + 2) 0 st0 = map span_of (spec_spans sf input r)
               /\ tok_all (matches (r_prog re) input) input (S (S (S (length input)))) {| t_prev := Some 0; t_ms := st0 |}
-                 = Ok (pieces input (map span_of (spec_spans sf input r)) 0))
+                 = Ok (pieces input (map span_of (spec_spans sf input r)) 0)
+              /\ (forall repl, Repl.plain repl = true ->
+                    replace_all re input repl = Ok (join repl (pieces input (map span_of (spec_spans sf input r)) 0))))
     | _ => True
     end.
 Proof. exact grammar_tokens_are_spec_pieces. Qed.
